@@ -52,6 +52,15 @@ type Case struct {
 	Ignore  []string `json:"ignore"`
 	Reqs    []Req    `json:"reqs"`
 	NewReqs []Req    `json:"newreqs"` // requirements written by the simulated get/tidy rewrite
+	Bulk    int      `json:"bulk,omitempty"` // that many further plain requirements (bulk00000 ...): large files
+	Pad     int      `json:"pad,omitempty"`  // one further ignore pattern of that many bytes
+}
+
+func clip(b []byte) string {
+	if len(b) > 3000 {
+		return string(b[:1500]) + fmt.Sprintf("\n... (%d bytes) ...\n", len(b)) + string(b[len(b)-1000:])
+	}
+	return string(b)
 }
 
 func (c Case) config(reqs []Req) *project.Config {
@@ -117,6 +126,17 @@ func exec(c Case) (v ev.Verdict) {
 			v = ev.Failf("panic", "panic: %v", r)
 		}
 	}()
+	if c.Bulk > 0 || c.Pad > 0 {
+		v.Classes = append(v.Classes, "large-file")
+		reqs := append([]Req{}, c.Reqs...)
+		for i := 0; i < c.Bulk; i++ {
+			reqs = append(reqs, Req{fmt.Sprintf("bulk%05d", i), fmt.Sprintf("example.org/bulk/p%05d", i), "v1.0.0"})
+		}
+		c.Reqs = reqs
+		if c.Pad > 0 {
+			c.Ignore = append(append([]string{}, c.Ignore...), strings.Repeat("x", c.Pad))
+		}
+	}
 	all := append([]string{c.Name, c.Version}, c.Ignore...)
 	for _, r := range append(append([]Req{}, c.Reqs...), c.NewReqs...) {
 		all = append(all, r.Name, r.Path, r.Version)
@@ -154,10 +174,10 @@ func exec(c Case) (v ev.Verdict) {
 	b1, _ := os.ReadFile(p1)
 	loaded, err := project.LoadConfigFile(p1)
 	if err != nil {
-		return ev.Failf("load-error", "LoadConfigFile(WriteConfigFile(c)) failed: %v\nfile:\n%s", err, b1)
+		return ev.Failf("load-error", "LoadConfigFile(WriteConfigFile(c)) failed: %v\nfile:\n%s", err, clip(b1))
 	}
 	if !reflect.DeepEqual(normalize(loaded), normalize(cfg)) {
-		return ev.Failf("roundtrip-differs", "Load(Write(c)) != c\n wrote  %#v\n loaded %#v\nfile:\n%s", normalize(cfg), normalize(loaded), b1)
+		return ev.Failf("roundtrip-differs", "Load(Write(c)) != c (%d / %d requirements)\nfile:\n%s", len(normalize(cfg).Requirements), len(normalize(loaded).Requirements), clip(b1))
 	}
 	p2 := filepath.Join(scratch, "b.toml")
 	if err := project.WriteConfigFile(p2, loaded); err != nil {
@@ -165,16 +185,16 @@ func exec(c Case) (v ev.Verdict) {
 	}
 	b2, _ := os.ReadFile(p2)
 	if !bytes.Equal(b1, b2) {
-		return ev.Failf("rewrite-differs", "Write(Load(Write(c))) differs from Write(c):\n%s\n---\n%s", b1, b2)
+		return ev.Failf("rewrite-differs", "Write(Load(Write(c))) differs from Write(c):\n%s\n---\n%s", clip(b1), clip(b2))
 	}
 	// "writing again produces identical bytes" every time, not just once (entries are kept in maps)
-	if len(c.Reqs) > 1 {
+	if len(c.Reqs) > 1 && c.Bulk == 0 {
 		for i := 0; i < 4; i++ {
 			if err := project.WriteConfigFile(p2, loaded); err != nil {
 				return ev.Failf("write-error", "repeated WriteConfigFile failed: %v", err)
 			}
 			if b3, _ := os.ReadFile(p2); !bytes.Equal(b1, b3) {
-				return ev.Failf("rewrite-differs", "writing the loaded configuration again (attempt %d) differs from the first file:\n%s\n---\n%s", i+2, b1, b3)
+				return ev.Failf("rewrite-differs", "writing the loaded configuration again (attempt %d) differs from the first file:\n%s\n---\n%s", i+2, clip(b1), clip(b3))
 			}
 		}
 	}
@@ -186,11 +206,11 @@ func exec(c Case) (v ev.Verdict) {
 	b3, _ := os.ReadFile(p1)
 	again, err := project.LoadConfigFile(p1)
 	if err != nil {
-		return ev.Failf("load-error", "load after get/tidy-style rewrite failed: %v\nfile:\n%s", err, b3)
+		return ev.Failf("load-error", "load after get/tidy-style rewrite failed: %v\nfile:\n%s", err, clip(b3))
 	}
 	want := normalize(c.config(c.NewReqs))
 	if !reflect.DeepEqual(normalize(again), want) {
-		return ev.Failf("rewrite-loses", "get/tidy-style rewrite lost something\n want   %#v\n loaded %#v\nfile:\n%s", want, normalize(again), b3)
+		return ev.Failf("rewrite-loses", "get/tidy-style rewrite lost something\n want   %#v\n loaded %#v\nfile:\n%s", want, normalize(again), clip(b3))
 	}
 	return v
 }
@@ -302,6 +322,11 @@ func genCase(t *rapid.T) Case {
 	}
 	c.Reqs = genReqs(t, "nreqs")
 	c.NewReqs = genReqs(t, "nnew")
+	if rapid.IntRange(0, 249).Draw(t, "large") == 42 {
+		// files of tens of kilobytes to a few megabytes
+		c.Bulk = rapid.SampledFrom([]int{0, 300, 3000, 12000, 25000}).Draw(t, "bulk")
+		c.Pad = rapid.SampledFrom([]int{0, 70000, 1200000}).Draw(t, "pad")
+	}
 	return c
 }
 
